@@ -7,11 +7,59 @@ PENDING = "check not built yet in this session (construction order: DESIGN.md se
 NOT_APPLICABLE = {("C%02d" % i): PENDING for i in range(1, 21)}
 
 TEXT = {
+    "C01": {
+        "text": 'Round trip (same state, exact consumption with arbitrary trailing bytes, arbitrary prior state, identical re-pack) is a theorem for every primitive field over all encodings, the 43 prefixers and paddings; composites of all four modes and whole messages are covered by the recursive model pack_f/unpack_f/m_pack/m_unpack, which is compared with the library on generated specs nested to depth 3 and whose general round-trip theorem is stated but not yet proved (partial).',
+        "design_ref": "DESIGN.md section 6 C01",
+        "note": 'Trusted: Coq kernel, hand-written model (Model/Field.v, Model/Message.v) validated by correspondence on every run, extraction/driver, Go harness incl. the spec/value generators and the property oracle.',
+        "technique": "Rocq theorems over a Gallina model + differential correspondence + property oracle",
+    },
+    "C02": {
+        "text": 'Re-encoding is a proved fixed point on canonical states of every primitive field; that everything Unpack accepts is re-packable is checked by the oracle on mutated encodings over generated specs and is refuted (theorem with witness) for EBCDIC1047 text fields, a recorded finding (F26).',
+        "design_ref": "DESIGN.md section 6 C02",
+        "note": 'Trusted: Coq kernel, hand-written model (Model/Field.v, Model/Message.v) validated by correspondence on every run, extraction/driver, Go harness incl. the spec/value generators and the property oracle.',
+        "technique": "Rocq theorems over a Gallina model + differential correspondence + property oracle",
+    },
+    "C03": {
+        "text": 'For every primitive field the packed bytes are proved to be prefix (exact width, alphabet, decoding to the padded unit count) followed by the encoded padded value, and such bytes unpack to the value; composites/messages are compared on every generated case with an independent reference encoder written from the property text, in both directions.',
+        "design_ref": "DESIGN.md section 6 C03",
+        "note": 'Trusted: Coq kernel, hand-written model (Model/Field.v, Model/Message.v) validated by correspondence on every run, extraction/driver, Go harness incl. the spec/value generators and the property oracle. harness/reflayout.go is the reference codec for composites and messages.',
+        "technique": "Rocq theorems over a Gallina model + differential correspondence + property oracle",
+    },
+    "C04": {
+        "text": "All leaf decoders and every primitive Unpack are proved total (Ok or Err, the model's panic primitives unreachable), reads are proved bounded by the input, the bitmap loop is proved to terminate within its fuel; composite/message decoding carries explicit Panic/OutOfFuel outcomes in the model and is compared with the library (each run in a child process under ulimit -v and a timeout) on mutated, truncated and adversarial inputs. Time and allocation are measured, not proved (partial).",
+        "design_ref": "DESIGN.md section 6 C04",
+        "note": 'Trusted: Coq kernel, hand-written model (Model/Field.v, Model/Message.v) validated by correspondence on every run, extraction/driver, Go harness incl. the spec/value generators and the property oracle.',
+        "technique": "Rocq theorems over a Gallina model + differential correspondence + property oracle",
+    },
+    "C08": {
+        "text": 'Theorems: Pack of a primitive or of a composite (at the root of any spec tree) succeeds only if the (padded) value / total encoded length is within the maximum, equals the fixed length and fits the digits; an accepted Unpack has an announced length within the maximum and within the bytes available.',
+        "design_ref": "DESIGN.md section 6 C08",
+        "note": 'Trusted: Coq kernel, hand-written model (Model/Field.v, Model/Message.v) validated by correspondence on every run, extraction/driver, Go harness incl. the spec/value generators and the property oracle.',
+        "technique": "Rocq theorems over a Gallina model + differential correspondence + property oracle",
+    },
+    "C09": {
+        "text": "Proved: the sort model returns the unique sorted permutation for every strict total order (so Pack's order is independent of map order) and composite Unpack consumes exactly the announced length. Permutation invariance, exact skipping and unknown-tag naming are checked on all permutations of up to 4 (6) elements and unknown elements at every position against the library and the model; their theorems over the TLV loop are not yet proved (partial).",
+        "design_ref": "DESIGN.md section 6 C09",
+        "note": 'Trusted: Coq kernel, hand-written model (Model/Field.v, Model/Message.v) validated by correspondence on every run, extraction/driver, Go harness incl. the spec/value generators and the property oracle.',
+        "technique": "Rocq theorems over a Gallina model + differential correspondence + property oracle",
+    },
+    "C10": {
+        "text": 'Proved for primitive fields (result and state independent of prior state); composites and messages: the model keeps stale sub-states exactly as the library does, is compared with it on histories, and the oracle compares used against fresh objects (value, re-pack, JSON) on every generated history (partial).',
+        "design_ref": "DESIGN.md section 6 C10",
+        "note": 'Trusted: Coq kernel, hand-written model (Model/Field.v, Model/Message.v) validated by correspondence on every run, extraction/driver, Go harness incl. the spec/value generators and the property oracle.',
+        "technique": "Rocq theorems over a Gallina model + differential correspondence + property oracle",
+    },
+    "C19": {
+        "text": 'Proved: every Unpack failure of the message model carries a non-empty field-id path headed by the element at which decoding stopped (MTI 0, bitmap 1, else an announced element at or after the loop position). The truncation-attribution clause is checked on every truncation offset of generated messages (owner computed independently from element lengths) and elements before the owner are compared with their decoded values; typing of PackError/UnpackError is checked on the library (partial).',
+        "design_ref": "DESIGN.md section 6 C19",
+        "note": 'Trusted: Coq kernel, hand-written model (Model/Field.v, Model/Message.v) validated by correspondence on every run, extraction/driver, Go harness incl. the spec/value generators and the property oracle.',
+        "technique": "Rocq theorems over a Gallina model + differential correspondence + property oracle",
+    },
     "C05": {
         "text": "Set/IsSet agreement inside the current size, minimal auto-expansion with exactly the continuation bits it must set and nothing else changed, "
                 "the fixed-bitmap no-op, exact consumption of the continuation-bit chain by Unpack (binary and hex, any trailing bytes) and termination of the unpack loop are "
                 "theorems for every block size B >= 1 and every index; the bitmap model (including the state a failed Unpack leaves behind and the panics of malformed states) "
-                "is compared with field.Bitmap on exhaustive single indices, pairs, packed bitmaps and operation histories for B = 1..16.",
+                "is compared with field.Bitmap on exhaustive single indices, pairs, packed bitmaps and operation histories for B = 1..16. Message level: the oracle reads the bitmap off the packed bytes independently and compares it with the present elements, checks minimality and that unrepresentable elements make Pack fail (F25 is a recorded finding).",
         "design_ref": "DESIGN.md section 6 C05",
         "note": "Trusted: Coq kernel, hand-written model of field/bitmap.go (validated by correspondence), extraction/driver, Go harness and its independent reference bit set. Message-level clauses are added with the message model.",
         "technique": "Rocq theorems over a Gallina model + differential correspondence",
